@@ -137,8 +137,10 @@ func (l *lexer) run() {
 		}
 
 		if e := recover(); e != nil {
-			// re-panic
-			panic(e)
+			if _, ok := e.(bailout); !ok {
+				// re-panic
+				panic(e)
+			}
 		}
 	}()
 
@@ -1597,7 +1599,7 @@ func (l *lexer) emit(typ int) {
 	case l.token <- tok:
 	case <-l.cancel:
 		// bailout
-		panic(nil)
+		panic(bailout{})
 	}
 	l.mark(0)
 }
@@ -1682,6 +1684,9 @@ func (l *lexer) error(pos ast.Pos, msg string) {
 }
 
 type action func() action
+
+// bailout is the panic value used to unwind the lexer goroutine.
+type bailout struct{}
 
 type token struct {
 	typ int
